@@ -14,6 +14,42 @@ use std::sync::atomic::{AtomicBool, AtomicU64, Ordering};
 use std::sync::Mutex;
 use std::time::Instant;
 
+/// The library under test prints debugging noise to stdout (`out!("read {}", f)` in the FLOAT
+/// parameter decoder).  At start-up the real stdout is saved and fd 1 is pointed at /dev/null;
+/// everything the harness reports goes through `outln`.
+static REAL_STDOUT: std::sync::atomic::AtomicI32 = std::sync::atomic::AtomicI32::new(1);
+
+pub fn silence_library_stdout() {
+    unsafe {
+        let saved = libc::dup(1);
+        let devnull = libc::open(b"/dev/null\0".as_ptr() as *const libc::c_char, libc::O_WRONLY);
+        if saved >= 0 && devnull >= 0 {
+            libc::dup2(devnull, 1);
+            libc::close(devnull);
+            REAL_STDOUT.store(saved, Ordering::SeqCst);
+        }
+    }
+}
+
+pub fn outln(s: &str) {
+    let fd = REAL_STDOUT.load(Ordering::SeqCst);
+    let mut line = s.as_bytes().to_vec();
+    line.push(b'\n');
+    let mut off = 0;
+    while off < line.len() {
+        let n = unsafe { libc::write(fd, line[off..].as_ptr() as *const libc::c_void, line.len() - off) };
+        if n <= 0 {
+            break;
+        }
+        off += n as usize;
+    }
+}
+
+#[macro_export]
+macro_rules! out {
+    ($($a:tt)*) => { $crate::engine::outln(&format!($($a)*)) };
+}
+
 pub const VERIF_DIR: &str = "/verif";
 pub const REPO_DIR: &str = "/repo";
 
@@ -74,9 +110,9 @@ pub fn install_panic_hook() {
             let first = LAST_PANIC.with(|p| p.borrow().clone()).map(|p| format!("{}:{}: {}", p.file, p.line, p.msg)).unwrap_or_default();
             if let Some((prop, case)) = j {
                 let path = write_failure_file(&prop, &case, &format!("process abort: first panic {} ; second panic while unwinding {}:{}: {}", first, file, line, msg), "abort");
-                println!("  first panic: {}", first);
-                println!("  second panic (in a destructor, while unwinding): {}:{}: {}", file, line, msg);
-                println!("ABORT-CASE property={} replay={}", prop, path.display());
+                out!("  first panic: {}", first);
+                out!("  second panic (in a destructor, while unwinding): {}:{}: {}", file, line, msg);
+                out!("ABORT-CASE property={} replay={}", prop, path.display());
             }
             else {
                 eprintln!("INFRA: double panic outside a case: first {} ; second {}:{}: {}", first, file, line, msg);
@@ -466,13 +502,13 @@ pub fn replay_one<P: Prop>(p: &P, path: &Path) -> i32 {
     let (unknown, _) = eval_case(p, &case, &known, &stats, true);
     print_known_lines(p.id(), &known, &stats);
     if unknown.is_empty() {
-        println!("replay {}: property {} held", path.display(), p.id());
+        out!("replay {}: property {} held", path.display(), p.id());
         0
     } else {
         for f in &unknown {
-            println!("  failure key={} :: {}", f.key, f.msg);
+            out!("  failure key={} :: {}", f.key, f.msg);
         }
-        println!("VIOLATION property={} replay={}", p.id(), path.display());
+        out!("VIOLATION property={} replay={}", p.id(), path.display());
         1
     }
 }
@@ -493,7 +529,7 @@ fn print_known_lines(prop: &str, known: &[Known], stats: &Stats) {
     let hits = stats.known_hits.lock().unwrap();
     for k in known.iter().filter(|k| k.property == prop) {
         if let Some(n) = hits.get(&k.key) {
-            println!("KNOWN-FINDING: property={} {} [key={} hits={}]", prop, k.what, k.key, n);
+            out!("KNOWN-FINDING: property={} {} [key={} hits={}]", prop, k.what, k.key, n);
         }
     }
 }
@@ -682,7 +718,7 @@ pub fn run<P: Prop>(p: &P, tier: Tier) -> i32 {
     }
 
     print_known_lines(p.id(), &known, &stats);
-    println!(
+    out!(
         "{} {}: evaluations={} distinct_nontrivial={} regression_inputs={} enumerated={} wall={:.1}s",
         p.id(),
         tier.name(),
@@ -696,13 +732,13 @@ pub fn run<P: Prop>(p: &P, tier: Tier) -> i32 {
         0
     } else {
         if violations.len() > 3 {
-            println!("  ({} failing cases; showing 3)", violations.len());
+            out!("  ({} failing cases; showing 3)", violations.len());
         }
         for (path, fails) in violations.iter().take(3) {
             for f in fails.iter().take(3) {
-                println!("  failure key={} :: {}", f.key, f.msg);
+                out!("  failure key={} :: {}", f.key, f.msg);
             }
-            println!("VIOLATION property={} replay={}", p.id(), path.display());
+            out!("VIOLATION property={} replay={}", p.id(), path.display());
         }
         1
     }
